@@ -45,6 +45,7 @@ ImplDesigned ==
       ackDiscarded          |-> FALSE,  \* F19: a message whose data was discarded as outdated is still acknowledged  \* F18: a structural change advances the tick past an unsent periodic change
       emptyMutateWithGraphs |-> FALSE,  \* F11: empty mutate message per tick once relation graphs exist
       refBeforeSpawnUnmarked|-> FALSE,  \* F8: entity first seen as a reference never gets the marker
+      clientLinkedDespawn   |-> FALSE,  \* F17: a despawn on the client takes the client-side children along, replicated or not
       seedLeakHidden        |-> FALSE,  \* seeded defect (no finding): hidden entities are not filtered from changes
       seedIgnoreMapping     |-> FALSE,  \* seeded: the client ignores entity mappings (a second entity is spawned)
       seedEvNoQueue         |-> FALSE,  \* seeded: the client hands dependent events to game logic without waiting for their tick
@@ -134,6 +135,47 @@ SpawnF(st, e, ks, repl) ==
     IN [st EXCEPT !.srv.world[e] = ent]
 SpawnEnabled(st, e) == ~st.srv.world[e].used
 
+(* relations: `ChildOf` (Bevy's hierarchy relation, replicated as a mapped component and registered with
+   sync_related_entities).  The relation is the component "ChildOf" whose value is the name of the parent. *)
+
+REL == "ChildOf"
+ParentOf(world, e) == IF world[e].alive /\ REL \in DOMAIN world[e].comps THEN world[e].comps[REL].val ELSE None
+
+RECURSIVE AncestorsOf(_, _, _)
+AncestorsOf(world, e, seen) ==
+    LET p == ParentOf(world, e)
+    IN IF p = None \/ p \in seen THEN seen ELSE AncestorsOf(world, p, seen \cup {p})
+
+\* e and everything below it (Bevy's linked despawn)
+Subtree(world, e) == {d \in DOMAIN world : d = e \/ e \in AncestorsOf(world, d, {})}
+
+\* inserting the relation on an entity that has one replaces it in place (no removal event)
+RelateF(st, e, p) ==
+    LET w == Win(st)
+        old == st.srv.world[e].comps
+    IN [st EXCEPT !.srv.world[e].comps =
+            With(old, REL, IF REL \in DOMAIN old THEN [old[REL] EXCEPT !.val = p, !.chg = w]
+                           ELSE [val |-> p, chg |-> w, add |-> w])]
+RelateEnabled(st, e, p) ==
+    Alive(st, e) /\ Alive(st, p) /\ e # p /\ e \notin AncestorsOf(st.srv.world, p, {})
+
+UnrelateF(st, e) ==
+    [st EXCEPT !.srv.world[e].comps = Without(@, REL), !.srv.remEv[e] = @ \cup {REL}]
+UnrelateEnabled(st, e) == Alive(st, e) /\ REL \in DOMAIN st.srv.world[e].comps
+
+\* relation graphs as `RelatedEntities` maintains them: connected components of the relations whose source
+\* is replicated (the target need not be)
+RelEdges(srv) == {<<c, srv.world[c].comps[REL].val>> :
+                    c \in {x \in DOMAIN srv.world : srv.world[x].alive /\ srv.world[x].repl /\ REL \in DOMAIN srv.world[x].comps}}
+RECURSIVE Reach(_, _)
+Reach(edges, S) ==
+    LET nxt == S \cup {ed[2] : ed \in {x \in edges : x[1] \in S}} \cup {ed[1] : ed \in {x \in edges : x[2] \in S}}
+    IN IF nxt = S THEN S ELSE Reach(edges, nxt)
+GroupOf(srv, e) == Reach(RelEdges(srv), {e})
+NumGraphs(srv) == LET ed == RelEdges(srv)
+                      nodes == {x[1] : x \in ed} \cup {x[2] : x \in ed}
+                  IN Cardinality({Reach(ed, {n}) : n \in nodes})
+
 \* OnRemove<Replicated> observer: buffers the despawn while the server is running
 \* (and drops removal records buffered for the entity in earlier frames of the window, unless F3)
 BufferDespawn(srv, e) ==
@@ -142,11 +184,13 @@ BufferDespawn(srv, e) ==
                      !.removalBuf = IF Impl.staleRemovalOnDespawn THEN @ ELSE Without(@, e)]
     ELSE srv
 
-DespawnF(st, e) ==
-    LET ent == st.srv.world[e]
-        s1 == [st.srv EXCEPT !.world[e] = [ent EXCEPT !.alive = FALSE, !.repl = FALSE, !.markerAdd = 0, !.comps = EmptyFn]]
-        s2 == IF ent.repl THEN BufferDespawn(s1, e) ELSE s1
-    IN [st EXCEPT !.srv = s2]
+DespawnOne(srv, e) ==
+    LET ent == srv.world[e]
+        s1 == [srv EXCEPT !.world[e] = [ent EXCEPT !.alive = FALSE, !.repl = FALSE, !.markerAdd = 0, !.comps = EmptyFn]]
+    IN IF ent.repl THEN BufferDespawn(s1, e) ELSE s1
+
+\* despawning an entity despawns everything below it in the hierarchy
+DespawnF(st, e) == [st EXCEPT !.srv = FoldSet(DespawnOne, st.srv, Subtree(st.srv.world, e))]
 DespawnEnabled(st, e) == Alive(st, e)
 
 MarkF(st, e) == [st EXCEPT !.srv.world[e].repl = TRUE, !.srv.world[e].markerAdd = Win(st)]
@@ -342,8 +386,10 @@ ReplicateFor(srv, scl, f) ==
         ackable |-> ackable]
 
 \* is `part` (a sequence of sets of entities) an acceptable split of the mutated entities?
-PartOK(part, mutEnts, graphs) ==
+PartOK(part, mutEnts, graphs, srv) ==
     /\ \A i \in 1..Len(part) : part[i] \subseteq mutEnts
+    \* the mutated entities of one relation graph travel in one message
+    /\ \A i \in 1..Len(part) : \A e \in part[i] : (GroupOf(srv, e) \cap mutEnts) \subseteq part[i]
     /\ UNION {part[i] : i \in 1..Len(part)} = mutEnts
     /\ \A i, j \in 1..Len(part) : i # j => part[i] \cap part[j] = {}
     /\ (Len(part) = 0) <=> (mutEnts = {} /\ ~Track /\ ~(Impl.emptyMutateWithGraphs /\ graphs > 0))
@@ -355,8 +401,9 @@ CanonPart(mutEnts, graphs) ==
 \* The replication run for every authorized client.  `parts[c]` is the split of the mutated
 \* entities into mutate messages chosen for client c; parts = <<>> selects the canonical split
 \* (everything in one message).  Returns the new state and whether the given split was acceptable.
-Replicate(st, f, parts, graphs) ==
+Replicate(st, f, parts, extraGraphs) ==
     LET srv == st.srv
+        graphs == extraGraphs + NumGraphs(srv)
         R == [c \in Client |-> IF srv.cl[c].auth THEN ReplicateFor(srv, srv.cl[c], f) ELSE <<>>]
         part == [c \in Client |->
                     IF ~srv.cl[c].auth THEN <<>>
@@ -378,7 +425,7 @@ Replicate(st, f, parts, graphs) ==
         newNet == [c \in Client |->
             IF ~srv.cl[c].auth THEN st.net[c]
             ELSE [st.net[c] EXCEPT !.upd = @ \o R[c].upd, !.mut = @ \o msgs[c]]]
-        partsOK == \A c \in Client : srv.cl[c].auth => PartOK(part[c], DOMAIN R[c].muts, graphs)
+        partsOK == \A c \in Client : srv.cl[c].auth => PartOK(part[c], DOMAIN R[c].muts, graphs, srv)
     IN [st |-> [st EXCEPT !.srv.cl = newCl,
                           !.srv.despawnBuf = EmptyFn,
                           !.srv.removalBuf = EmptyFn,
@@ -466,27 +513,51 @@ ApplyMappings(cs, m) ==
             ELSE ents
     IN IF Impl.seedIgnoreMapping THEN cs ELSE [cs EXCEPT !.ents = FoldSet(one, @, m.maps)]
 
+\* client-side hierarchy, by the relations the client holds
+RECURSIVE CliAncestors(_, _, _)
+CliAncestors(ents, e, seen) ==
+    LET p == IF e \in DOMAIN ents /\ ents[e].alive /\ REL \in DOMAIN ents[e].comps THEN ents[e].comps[REL] ELSE None
+    IN IF p = None \/ p \in seen THEN seen ELSE CliAncestors(ents, p, seen \cup {p})
+Dead(ent) == [ent EXCEPT !.alive = FALSE, !.marker = FALSE, !.comps = EmptyFn, !.hist = -1]
+
 ApplyDespawns(cs, m) ==
     LET gone == {cs.ents[e].pre : e \in (DOMAIN m.desp) \cap (DOMAIN cs.ents)} \ {None}
-    IN [cs EXCEPT !.ents = WithoutAll(@, DOMAIN m.desp),
+        killed == {e \in (DOMAIN m.desp) \cap (DOMAIN cs.ents) : cs.ents[e].alive}
+        \* Bevy's linked despawn on the client: everything below a despawned entity dies with it; the map
+        \* entry of such an entity stays until its own despawn record is processed (F17 when there is none)
+        below == IF Impl.clientLinkedDespawn
+                 THEN {d \in DOMAIN cs.ents : CliAncestors(cs.ents, d, {}) \cap killed # {}} ELSE {}
+    IN [cs EXCEPT !.ents = [e \in (DOMAIN @) \ (DOMAIN m.desp) |-> IF e \in below THEN Dead(@[e]) ELSE @[e]],
                   !.pre = [p \in DOMAIN @ |-> IF p \in gone THEN FALSE ELSE @[p]]]
 
 \* removals / changes for one entity: resolve (or spawn on first sight), confirm the tick, edit components
+\* (an entity reserved earlier for a reference gets the marker with its own first record, unless F8)
 TouchEnt(ents, e, tick) ==
     IF e \in DOMAIN ents
-    THEN [ents EXCEPT ![e].hist = tick]
+    THEN [ents EXCEPT ![e].hist = tick, ![e].marker = IF Impl.refBeforeSpawnUnmarked THEN @ ELSE TRUE]
     ELSE With(ents, e, NewEnt(tick, TRUE))
+
+\* a component that references another server entity: an unknown one is given a placeholder entity
+Placeholder == [alive |-> TRUE, marker |-> FALSE, comps |-> EmptyFn, hist |-> -1, pre |-> None]
+WithRefs(ents, new) ==
+    IF REL \in DOMAIN new /\ new[REL] \notin DOMAIN ents THEN With(ents, new[REL], Placeholder) ELSE ents
+
+\* a record for a mapped entity that is dead on the client cannot be applied (as found, F17; the model
+\* skips the record)
+DeadMapped(ents, e) == e \in DOMAIN ents /\ ~ents[e].alive
 
 ApplyRemovals(cs, m) ==
     LET one(ents, e) ==
+            IF DeadMapped(ents, e) THEN ents ELSE
             LET e1 == TouchEnt(ents, e, m.tick)
             IN [e1 EXCEPT ![e].comps = WithoutAll(@, m.rems[e])]
     IN [cs EXCEPT !.ents = FoldSet(one, @, DOMAIN m.rems)]
 
 ApplyChanges(cs, m) ==
     LET one(ents, e) ==
-            LET e1 == TouchEnt(ents, e, m.tick)
-                new == m.chg[e]
+            IF DeadMapped(ents, e) THEN ents ELSE
+            LET new == m.chg[e]
+                e1 == TouchEnt(WithRefs(ents, new), e, m.tick)
             IN [e1 EXCEPT ![e].comps = [k \in (DOMAIN @) \cup (DOMAIN new) |->
                                            IF k \in DOMAIN new THEN new[k] ELSE @[k]]]
     IN [cs EXCEPT !.ents = FoldSet(one, @, DOMAIN m.chg)]
@@ -509,7 +580,7 @@ ApplyMutate(ents, b) ==
             IF e \notin DOMAIN es THEN es                       \* unknown entity: skipped
             ELSE IF es[e].hist < 0 THEN es                       \* no history yet: error, skipped
             ELSE IF b.tick > es[e].hist
-                 THEN [es EXCEPT ![e].hist = b.tick,
+                 THEN [WithRefs(es, b.ents[e]) EXCEPT ![e].hist = b.tick,
                                  ![e].comps = [k \in (DOMAIN @) \cup (DOMAIN b.ents[e]) |->
                                                   IF k \in DOMAIN b.ents[e] THEN b.ents[e][k] ELSE @[k]]]
                  ELSE es                                         \* outdated for this entity
